@@ -102,7 +102,7 @@ func (ex *Exec) sqlArg(v Value) (SVal, *MapObj) {
 	case *Term:
 		switch {
 		case x.sort == SString:
-			return SVal{v: x, null: f}, nil
+			return SVal{v: x, null: f}, ex.W.marshalled[x.id]
 		case x.sort == SBool:
 			return SVal{v: tt.Ite(x, tt.BV(1, 64), tt.BV(0, 64)), null: f}, nil
 		case x.sort.Width() > 0:
